@@ -350,7 +350,7 @@ func stmtsBeforeLoop(fd *ast.FuncDecl) []ast.Stmt {
 }
 
 func checkC16(c *core.Ctx) {
-	c.Explainf("C16 (decided clause: parser/formatter sibling agreement; that equal token counts imply equal text, and comment attachment, are NOT decided). format.go is a second consumer of the token grammar, driven by fixed token counts. R1: every token kind for which ReadFile's switch records something in the File has an arm in format's switch that writes. R2: for each paired construct every token count the parser can take along its non-error paths (sum of expectNext arities, expectAnyOfNext = 1, Next = 1, UnNext = -1, readUntil/loops = unbounded; optNewline/skipEndOfLineComments = trivia) must be a count the formatter can consume (constant-trip loops x body + straight-line Next calls; a loop that runs to a delimiter covers every count); both are recomputed from source on every run. R3: where the parser loops (postfix [] in readFieldType) the formatter loops. R5: the readonly marker is carried to the struct formatter.")
+	c.Explainf("C16 (decided clause: parser/formatter sibling agreement; that equal token counts imply equal text, and comment attachment, are NOT decided). format.go is a second consumer of the token grammar, driven by fixed token counts. R1: every token kind for which ReadFile's switch records something in the File has an arm in format's switch that writes. R2: for each paired construct every token count the parser can take along its non-error paths (sum of expectNext arities, expectAnyOfNext = 1, Next = 1, UnNext = -1, readUntil/loops = unbounded; optNewline/skipEndOfLineComments = trivia) must be a count the formatter can consume (constant-trip loops x body + straight-line Next calls; a loop that runs to a delimiter covers every count); both are recomputed from source on every run. R3: where the parser loops (postfix [] in readFieldType) the formatter loops. R4: every token the formatter takes with a bare tr.Next() is written back as its own text (.concrete) or as the same punctuation literal. R5: the readonly marker is carried to the struct formatter.")
 	p := loadRepo(c)
 	if p == nil {
 		return
@@ -478,6 +478,54 @@ func checkC16(c *core.Ctx) {
 	} else {
 		c.Undecide("readFieldType / formatType not found")
 	}
+	// ---- R4 token conservation: what the formatter takes from the reader it
+	// writes back as the token's own text (or, for pure punctuation, as the
+	// same literal)
+	nNext := 0
+	for _, fd := range funcsOfFiles(p, pkg, "format.go") {
+		if fd.Name.Name == "Format" {
+			continue
+		}
+		// simple statements of the function in source order
+		var flat []ast.Stmt
+		ast.Inspect(fd.Body, func(n ast.Node) bool {
+			switch x := n.(type) {
+			case *ast.ExprStmt, *ast.AssignStmt, *ast.ReturnStmt, *ast.BranchStmt:
+				flat = append(flat, x.(ast.Stmt))
+			case *ast.IfStmt:
+				flat = append(flat, &ast.ExprStmt{X: x.Cond})
+			case *ast.SwitchStmt:
+				if x.Tag != nil {
+					flat = append(flat, &ast.ExprStmt{X: x.Tag})
+				}
+			}
+			return true
+		})
+		for i, st := range flat {
+			es, ok := st.(*ast.ExprStmt)
+			if !ok || !isMethodCall(es.X, "tr", "Next") {
+				continue
+			}
+			nNext++
+			okUse := false
+			for _, follow := range flat[i+1:] {
+				if fe, ok := follow.(*ast.ExprStmt); ok && isMethodCall(fe.X, "tr", "Next") {
+					break
+				}
+				fs := srcOf(p, follow)
+				if strings.Contains(fs, ".concrete") || strings.Contains(fs, "tr.UnNext()") || strings.Contains(fs, "formatType(tr)") ||
+					strings.Contains(fs, "formatMessage(tr") || strings.Contains(fs, "formatStruct(tr") ||
+					strings.Contains(fs, `[]byte(";")`) || strings.Contains(fs, `[]byte(";\n")`) || strings.Contains(fs, `[]byte("[]")`) || strings.Contains(fs, `';'`) {
+					okUse = true
+					break
+				}
+			}
+			c.Check("R4", fmt.Sprintf("%s writes back the token it takes (Next #%d)", fd.Name.Name, nNext), p.Pos(es.Pos()), okUse,
+				"a token is taken from the reader and neither its text (.concrete) nor the same punctuation is written before the next token is taken: its text is dropped or replaced by something the formatter computed")
+		}
+	}
+	c.Count("formatter_next_calls", nNext)
+	c.Floor("formatter_next_calls", 20)
 	// ---- R5
 	src := srcOf(p, ff.Body)
 	c.Check("R5", "the readonly marker reaches formatStruct", p.Pos(ff.Pos()), strings.Contains(src, "readOnly = true") && strings.Contains(src, "formatStruct(tr, readOnly,"), "")
